@@ -1054,9 +1054,11 @@ class Interp:
         if isinstance(e, ast.Call):
             f = self.eval(e.func, env, mod)
             if isinstance(f, type) and issubclass(f, BaseException):
-                exc = ExcObj(f, ())  # message arguments not evaluated (A7)
+                self._eval_message_args(e, env, mod)
+                exc = ExcObj(f, ())  # the message itself is not kept (A7)
             elif isinstance(f, ClassV) and any(isinstance(b, type) and issubclass(b, BaseException) for b in f.native_bases()):
-                exc = Obj(f, self.ctx)  # message / payload arguments not evaluated (A7)
+                self._eval_message_args(e, env, mod)
+                exc = Obj(f, self.ctx)  # the message / payload itself is not kept (A7)
             else:
                 exc = self.eval(e, env, mod)
         else:
@@ -1070,6 +1072,16 @@ class Interp:
         if not isinstance(exc, (ExcObj, Obj)):
             raise PyRaise(ExcObj(TypeError, ("exceptions must derive from BaseException",)), st.lineno)
         raise PyRaise(exc, st.lineno)
+
+    def _eval_message_args(self, call, env, mod):
+        """The arguments of a raised exception are evaluated for the exceptions THEY can raise (a TypeError while the
+        message is put together replaces the intended exception); their value is not kept, and anything outside the
+        supported subset is skipped (A7: message formatting is otherwise pure)."""
+        for a in list(call.args) + [k.value for k in call.keywords]:
+            try:
+                self.eval(a, env, mod)
+            except Unsupported:
+                continue
 
     _current_exc = None
 
@@ -2227,7 +2239,22 @@ def _str_method(I, s, name, args, k):
                 return OpaqueStr()
         return OpaqueStr()
     if name == "join":
+        from .absdom import AList
+
+        if isinstance(args[0], AList):
+            # an abstract list: joining needs strings; an element that is an object (a Var, a term) is a TypeError as soon as
+            # the list has an element at all
+            lst = args[0]
+            e0 = z3.Const(I.ctx.fresh_name("j"), lst.sort)
+            sample = lst.wrap(e0)
+            if isinstance(sample, Obj):
+                if I.ctx.branch(z3.Exists([e0], to_bool(lst.mem(e0))), "join.nonempty"):
+                    I.raise_native(TypeError, None, "sequence item 0: expected str instance")
+                return ""
+            return OpaqueStr()
         parts = I.iter_values(args[0])
+        if any(isinstance(p, Obj) or p is None or isinstance(p, (int, float)) and not isinstance(p, bool) or is_sym_num(p) for p in parts):
+            I.raise_native(TypeError, None, "sequence item: expected str instance")
         if all(isinstance(p, str) for p in parts):
             return s.join(parts)
         if all(isinstance(p, (str, FmtReal, SymStr)) for p in parts):
